@@ -13,6 +13,7 @@ the real code by the harness (deterministic witness cases 0–3).
 -/
 import LinVerif.Lemmas.C12Layout
 import LinVerif.Lemmas.C12TopN
+import Mathlib.Data.List.Sort
 import LinVerif.Lemmas.C12Inter
 import LinVerif.Lemmas.C12Variant
 import LinVerif.Generated.C12
@@ -623,6 +624,68 @@ theorem orderby_deterministic_of_distinct_keys (ords : List OrdItem) (limit : Na
     (topN (rowLess ords) limit rows).Perm (topN (rowLess ords) limit rows') :=
   orderby_topn_deterministic _ limit rows rows' hn hp (strictTotal_of_distinct_keys ords rows hk)
 
+/-- **top-N = sort, then take** for ANY total preorder (ties allowed): whatever the push order,
+what `topNHeap.Add` keeps is the first `limit` rows of SOME list that is a permutation of the rows
+and sorted by the order (no later row strictly better than an earlier one). With ties the sorted
+list is not unique — that is exactly the freedom `ties_are_order_dependent` shows — but no dropped
+row ever beats a kept one. -/
+theorem topn_is_sort_then_take (less : Row → Row → Bool) (ho : StrictWeak less) (limit : Nat)
+    (rows : List Row) (hn : rows.Nodup) :
+    ∃ sorted : List Row, sorted.Perm rows ∧ sorted.Pairwise (fun a b => less a b = false) ∧
+      (topN less limit rows).Perm (sorted.take limit) := by
+  have t := isTopW_topN less limit rows hn ho
+  let K := topN less limit rows
+  let D := rows.filter (fun x => !K.contains x)
+  let r : Row → Row → Prop := fun a b => less a b = false
+  have : DecidableRel r := fun a b => inferInstanceAs (Decidable (less a b = false))
+  have : Std.Total r := ⟨fun a b => by
+    by_cases h : less a b = true
+    · exact Or.inr (ho.asymm a b h)
+    · exact Or.inl (by simpa using h)⟩
+  have : IsTrans Row r := ⟨fun a b c => ho.negtrans a b c⟩
+  let sK := K.insertionSort r
+  let sD := D.insertionSort r
+  have pK : sK.Perm K := List.perm_insertionSort r K
+  have pD : sD.Perm D := List.perm_insertionSort r D
+  -- K and the rows outside K are the rows
+  have hKfilter : K.Perm (rows.filter (fun x => K.contains x)) := by
+    apply (List.perm_ext_iff_of_nodup t.nodup (hn.filter _)).mpr
+    intro x
+    constructor
+    · intro hx; exact List.mem_filter.mpr ⟨t.sub x hx, by simpa using hx⟩
+    · intro hx; simpa using (List.mem_filter.mp hx).2
+  have hrows : (sK ++ sD).Perm rows :=
+    ((pK.trans hKfilter).append pD).trans (List.filter_append_perm _ rows)
+  refine ⟨sK ++ sD, hrows, ?_, ?_⟩
+  · apply List.pairwise_append.mpr
+    refine ⟨List.pairwise_insertionSort r K, List.pairwise_insertionSort r D, ?_⟩
+    intro a ha b hb
+    have haK : a ∈ K := pK.mem_iff.mp ha
+    have hbD := List.mem_filter.mp (pD.mem_iff.mp hb)
+    exact t.dom a haK b hbD.1 (by simpa using hbD.2)
+  · by_cases hl : K.length < limit
+    · -- not full: everything is kept
+      have hD : D = [] := by
+        apply List.filter_eq_nil_iff.mpr
+        intro x hx
+        simpa using t.full hl x hx
+      have hsD : sD = [] := by
+        have := pD.length_eq; rw [hD] at this; exact List.length_eq_zero_iff.mp this
+      rw [hsD, List.append_nil, List.take_of_length_le (by rw [pK.length_eq]; exact Nat.le_of_lt hl)]
+      exact pK.symm
+    · have hlen : sK.length = limit := by
+        rw [pK.length_eq]
+        have h1 : K.length ≤ limit := t.len
+        omega
+      rw [List.take_left' hlen]
+      exact pK.symm
+
+/-- for the real comparison function (exact differences of the order-by keys) -/
+theorem topn_rowLess_is_sort_then_take (ords : List OrdItem) (limit : Nat) (rows : List Row) (hn : rows.Nodup) :
+    ∃ sorted : List Row, sorted.Perm rows ∧ sorted.Pairwise (fun a b => rowLess ords a b = false) ∧
+      (topN (rowLess ords) limit rows).Perm (sorted.take limit) :=
+  topn_is_sort_then_take _ (rowLess_strictWeak ords) limit rows hn
+
 /-- ties are exposed, not hidden: two groups with equal keys and `limit 1` — the survivor is
 whichever was pushed first (in the code: whichever the map iteration yields first). The same
 holds for `limit` without `order by` (`resultLimiter` keeps the first `limit` pushed rows). -/
@@ -819,6 +882,30 @@ theorem error_before_plan_completion_is_erased (v : Variant) (p : Payload) :
 of a failing node is gone after the plan-completion callback -/
 theorem error_not_sticky_pinned (v : Variant) :
     ((Ctx.new 1).run false v [.resp .error, .planDone none]).err = none := rfl
+
+/-! A TRUNCATING COMPARATOR (seeded change c12-12: `int(a - b)` instead of the sign of `a - b`).
+Values travel scaled by 8, so `int(a-b)` is `(A - B).tdiv 8`: keys closer than 1.0 compare as
+equal, the comparison is no longer the strict part of a total preorder (not negatively
+transitive), and the kept set depends on the push order although all keys are distinct. -/
+def rowLessTrunc (scale : Int) : List OrdItem → Row → Row → Bool
+  | [], _, _ => false
+  | o :: os, a, b =>
+    let d := (a.ordKey o - b.ordKey o).tdiv scale
+    let d := if o.desc then -d else d
+    if d > 0 then true else if d < 0 then false else rowLessTrunc scale os a b
+
+theorem truncating_comparator_is_order_dependent :
+    let a : Row := { tags := 0, vals := [some [(0, 9)]] }    -- 1.125
+    let b : Row := { tags := 1, vals := [some [(0, 10)]] }   -- 1.25
+    let c : Row := { tags := 2, vals := [some [(0, 17)]] }   -- 2.125
+    let ords : List OrdItem := [{ fn := 1, desc := true, sel := some 0 }]
+    -- exact comparison: the best row wins whatever the push order
+    topN (rowLess ords) 1 [a, b] = [b] ∧ topN (rowLess ords) 1 [b, a] = [b] ∧
+    -- truncating comparison: whoever is pushed first stays
+    topN (rowLessTrunc 8 ords) 1 [a, b] = [a] ∧ topN (rowLessTrunc 8 ords) 1 [b, a] = [b] ∧
+    -- and it is not negatively transitive: a ~ b, b ~ c, but c beats a
+    rowLessTrunc 8 ords a b = false ∧ rowLessTrunc 8 ords b c = false ∧ rowLessTrunc 8 ords a c = true := by
+  decide
 
 /-- the full-strength statement is false of the code as it is (witness (a); (b), (c), (d) refute
 it just as well) -/
@@ -1082,6 +1169,15 @@ theorem generated_field_tables :
     (downSamplingFuncs.all (fun r => downSamplingFunc r.1 == r.2)) = true ∧
     ((List.range 7).all (fun t => (List.range 11).all (fun f =>
         funcSupported t f == supportedFuncs.contains (t, f)))) = true := by decide
+
+open LinVerif.Generated.C12 in
+/-- `topNHeap.Less` is the comparison `rowLess` models: per order-by item the DIFFERENCE of the two
+values, negated for desc, `> 0` -> true, `< 0` -> false, otherwise the next item; finally false -/
+theorem generated_topn_less :
+    topnLessSteps = ["range h.orderByItems",
+      "  ret := h.rows[i].GetValue(by.Name, by.FuncType) - h.rows[j].GetValue(by.Name, by.FuncType)",
+      "  if by.Desc", "    ret = -ret", "  if ret > 0", "    return true", "  else", "    if ret < 0",
+      "      return false", "return false"] := by decide
 
 open LinVerif.Generated.C12 in
 theorem generated_hash_and_routing :
